@@ -709,7 +709,8 @@ func (server *Server) registerCoreExecutors() {
 			return nil, err
 		}
 
-		msg, err := server.userCommandHandler.ZRange(conn, key, start, stop, opt)
+		// The reverse ranks start..stop are the forward ranks -stop-1..-start-1.
+		msg, err := server.userCommandHandler.ZRange(conn, key, -stop-1, -start-1, opt)
 		if err != nil {
 			return msg, err
 		}
@@ -774,6 +775,10 @@ func (server *Server) registerCoreExecutors() {
 		opt.MINEXCLUSIVE = minEx
 		opt.MAXEXCLUSIVE = maxEx
 
+		// LIMIT applies to the reversed order, so the whole range is requested and limited here.
+		offset, count := opt.Offset, opt.Count
+		opt.Offset, opt.Count = 0, -1
+
 		msg, err := server.userCommandHandler.ZRangeByScore(conn, key, min, max, opt)
 		if err != nil {
 			return msg, err
@@ -784,10 +789,25 @@ func (server *Server) registerCoreExecutors() {
 			return msg, err
 		}
 
+		step := 1
 		if opt.WITHSCORES {
-			return NewArrayMessageWithArray(array.ReverseBy(2)), nil
+			step = 2
 		}
-		return NewArrayMessageWithArray(array.Reverse()), nil
+		reversedArray := array.ReverseBy(step)
+		if offset == 0 && count < 0 {
+			return NewArrayMessageWithArray(reversedArray), nil
+		}
+		limitedArray := proto.NewArray()
+		for n := 0; 0 <= offset; n++ {
+			elem, _ := reversedArray.Next()
+			if elem == nil || (0 <= count && offset+count <= n/step) {
+				break
+			}
+			if offset <= n/step {
+				limitedArray.Append(elem)
+			}
+		}
+		return NewArrayMessageWithArray(limitedArray), nil
 	})
 
 	server.RegisterExexutor("ZREM", func(conn *Conn, cmd string, args Arguments) (*Message, error) {
